@@ -119,7 +119,7 @@ type specStream struct {
 	frames []specFrame
 	ok     bool
 	why    string
-	rest   int // offset of the first byte not decoded
+	rest   int  // offset of the first byte not decoded
 	open   bool // a fragmented message is unfinished at the end
 }
 
